@@ -26,6 +26,9 @@ def npcosts(v, as_numpy):
     if not as_numpy:
         return list(v)
     import numpy as np
+    if as_numpy == "ndarray":
+        # one float64 array (a row of a results table); the marker False / True / 0.5 becomes 0.0 / 1.0 / 0.5
+        return np.array([float(x) for x in v], dtype=float)
     return [np.float64(x) for x in v[:-1]] + [v[-1]]
 
 
